@@ -9,7 +9,21 @@ only = sys.argv[2:]
 props = {json.loads(l)['id']: json.loads(l) for l in open('/verif/properties.jsonl')}
 os.makedirs('/tmp/seedprompts', exist_ok=True)
 extra = ""
-if suffix >= 'd':
+if suffix >= 'e':
+    extra = ("\nFor diversity, do NOT use any of these idea families (they have been used in earlier rounds): a buffer / map / "
+             "prototype object allocated once and shared between runs or calls; merging or appending in place into an input "
+             "(aliasing through spare slice capacity or a shared pointer); errors.Is instead of == for io.EOF; a loop variable "
+             "captured by a closure; two defers swapped; break instead of continue; a wrong index in the hand-unrolled select "
+             "tables; a package-level error value that gets mutated; a lock dropped or split; a renamed struct field that the "
+             "serialiser then skips; taking a helper / converter from the input side instead of the output side. "
+             "Look for OTHER kinds of slips: a boundary or off-by-one, a condition that is slightly too weak or too strong, an "
+             "early return that skips a later step, a default taken from the wrong level (node vs graph vs sub-graph), a "
+             "lookup by key where a path is needed (or the other way round), a state transition missed on a rare path "
+             "(error, interrupt, skip, empty input, zero items, last element), an option or flag not propagated into a nested "
+             "or wrapped object, a comparison of the wrong pair of types, a count that is taken before instead of after an "
+             "update. Before you edit, write down THREE candidates in three different files; implement the one that needs the "
+             "most specific circumstances.\n")
+elif suffix >= 'd':
     extra = ("\nRestrictions for this round: the change must NOT be in compose/graph_run.go, compose/graph_manager.go, "
              "compose/graph.go, compose/tool_node.go, compose/utils.go, compose/dag.go, compose/generic_helper.go or schema/stream.go "
              "(these have been covered by earlier rounds) - look at the other files of compose/ (workflow.go, chain*.go, branch.go, "
